@@ -102,8 +102,8 @@ theorem handle_print_roundtrip_proof (ur : Option Bytes) (comps : List Bytes) (n
     simp only [specEntry, hk, Option.some.injEq] at he
     subst he
     refine ⟨_, by simp only [describeNode, hsane, hk, hpath, hcond]; rfl, fun rest => ?_⟩
-    have hh : findHook KW_DIR hooks = some ⟨KW_DIR, sIFDIR, false, true, .generic⟩ := by decide
-    have := describe_line KW_DIR word_dir _ hh comps hc n hwf [] [] Encs.nil (by simp) (by simp) (Or.inr rfl) (by simp) rest
+    have hh : findHook KW_DIR hooks = some ⟨KW_DIR, sIFDIR, 0, false, true, .generic⟩ := by decide
+    have := describe_line KW_DIR word_dir _ hh comps hc n hwf [] [] Encs.nil (by simp) (by simp) (Or.inr rfl) (by simp) rfl rest
     simp only [spTail, List.append_nil, addGeneric] at this
     simp only [List.append_assoc, List.cons_append, List.nil_append, List.singleton_append] at this ⊢
     rw [this]; rfl
@@ -111,8 +111,8 @@ theorem handle_print_roundtrip_proof (ur : Option Bytes) (comps : List Bytes) (n
     simp only [specEntry, hk, Option.some.injEq] at he
     subst he
     refine ⟨_, by simp only [describeNode, hsane, hk, hpath]; rfl, fun rest => ?_⟩
-    have hh : findHook KW_PIPE hooks = some ⟨KW_PIPE, sIFIFO, false, false, .generic⟩ := by decide
-    have := describe_line KW_PIPE word_pipe _ hh comps hc n hwf [] [] Encs.nil (by simp) (by simp) (Or.inl (hnr (by simp [hk]))) (by simp) rest
+    have hh : findHook KW_PIPE hooks = some ⟨KW_PIPE, sIFIFO, 0, false, false, .generic⟩ := by decide
+    have := describe_line KW_PIPE word_pipe _ hh comps hc n hwf [] [] Encs.nil (by simp) (by simp) (Or.inl (hnr (by simp [hk]))) (by simp) rfl rest
     simp only [spTail, List.append_nil, addGeneric] at this
     simp only [List.append_assoc, List.cons_append, List.nil_append, List.singleton_append] at this ⊢
     rw [this]; rfl
@@ -120,8 +120,8 @@ theorem handle_print_roundtrip_proof (ur : Option Bytes) (comps : List Bytes) (n
     simp only [specEntry, hk, Option.some.injEq] at he
     subst he
     refine ⟨_, by simp only [describeNode, hsane, hk, hpath]; rfl, fun rest => ?_⟩
-    have hh : findHook KW_SOCK hooks = some ⟨KW_SOCK, sIFSOCK, false, false, .generic⟩ := by decide
-    have := describe_line KW_SOCK word_sock _ hh comps hc n hwf [] [] Encs.nil (by simp) (by simp) (Or.inl (hnr (by simp [hk]))) (by simp) rest
+    have hh : findHook KW_SOCK hooks = some ⟨KW_SOCK, sIFSOCK, 0, false, false, .generic⟩ := by decide
+    have := describe_line KW_SOCK word_sock _ hh comps hc n hwf [] [] Encs.nil (by simp) (by simp) (Or.inl (hnr (by simp [hk]))) (by simp) rfl rest
     simp only [spTail, List.append_nil, addGeneric] at this
     simp only [List.append_assoc, List.cons_append, List.nil_append, List.singleton_append] at this ⊢
     rw [this]; rfl
@@ -129,20 +129,20 @@ theorem handle_print_roundtrip_proof (ur : Option Bytes) (comps : List Bytes) (n
     simp only [specEntry, hk, Option.some.injEq] at he
     subst he
     refine ⟨_, by simp only [describeNode, hsane, hk, hpath]; rfl, fun rest => ?_⟩
-    have hh : findHook KW_SLINK hooks = some ⟨KW_SLINK, sIFLNK, true, false, .generic⟩ := by decide
+    have hh : findHook KW_SLINK hooks = some ⟨KW_SLINK, sIFLNK, 0, true, false, .generic⟩ := by decide
     obtain ⟨x1, x2, x3⟩ := extra1 n.target (safe_of_lineSafe (htgt hk))
-    have := describe_line KW_SLINK word_slink _ hh comps hc n hwf _ _ x1 x2 x3 (Or.inl (hnr (by simp [hk]))) (by simp) rest
+    have := describe_line KW_SLINK word_slink _ hh comps hc n hwf _ _ x1 x2 x3 (Or.inl (hnr (by simp [hk]))) (by simp) rfl rest
     simp only [spTail, List.append_nil, addGeneric] at this
     simp only [List.append_assoc, List.cons_append, List.nil_append, List.singleton_append] at this ⊢
     rw [this]; rfl
   | file =>
-    have hh : findHook KW_FILE hooks = some ⟨KW_FILE, sIFREG, false, false, .file⟩ := by decide
+    have hh : findHook KW_FILE hooks = some ⟨KW_FILE, sIFREG, 0, false, false, .file⟩ := by decide
     cases hu : ur with
     | none =>
       simp only [specEntry, hk, hu, Option.some.injEq] at he
       subst he
       refine ⟨_, by simp only [describeNode, hsane, hk, hpath]; rfl, fun rest => ?_⟩
-      have := describe_line KW_FILE word_file _ hh comps hc n hwf [] [] Encs.nil (by simp) (by simp) (Or.inl (hnr (by simp [hk]))) (by simp) rest
+      have := describe_line KW_FILE word_file _ hh comps hc n hwf [] [] Encs.nil (by simp) (by simp) (Or.inl (hnr (by simp [hk]))) (by simp) rfl rest
       simp only [spTail, List.append_nil, addFile, addGeneric] at this
       simp only [List.append_assoc, List.cons_append, List.nil_append, List.singleton_append] at this ⊢
       rw [this]; rfl
@@ -153,7 +153,7 @@ theorem handle_print_roundtrip_proof (ur : Option Bytes) (comps : List Bytes) (n
       have hloc : Safe (r ++ SL :: joinSlash comps) :=
         Safe.append (safe_of_lineSafe (hur r hu)) (Safe.cons (by decide) (by decide) hP)
       obtain ⟨x1, x2, x3⟩ := extra1 _ hloc
-      have := describe_line KW_FILE word_file _ hh comps hc n hwf _ _ x1 x2 x3 (Or.inl (hnr (by simp [hk]))) (by simp) rest
+      have := describe_line KW_FILE word_file _ hh comps hc n hwf _ _ x1 x2 x3 (Or.inl (hnr (by simp [hk]))) (by simp) rfl rest
       simp only [spTail, List.append_nil, addFile, addGeneric] at this
       simp only [List.append_assoc, List.cons_append, List.nil_append, List.singleton_append] at this ⊢
       rw [this]; rfl
@@ -161,7 +161,7 @@ theorem handle_print_roundtrip_proof (ur : Option Bytes) (comps : List Bytes) (n
     simp only [specEntry, hk, Option.some.injEq] at he
     subst he
     refine ⟨_, by simp only [describeNode, hsane, hk, hpath]; rfl, fun rest => ?_⟩
-    have hh : findHook KW_NOD hooks = some ⟨KW_NOD, 0, true, false, .device⟩ := by decide
+    have hh : findHook KW_NOD hooks = some ⟨KW_NOD, 0, 0, true, false, .device⟩ := by decide
     obtain ⟨d1, d2, d3, d4, d5⟩ := dev_fields n.devno hdev
     have d1' := (d1 99).resolve_right (by decide)
     have := describe_line KW_NOD word_nod _ hh comps hc n hwf _ _ d1'
@@ -170,7 +170,7 @@ theorem handle_print_roundtrip_proof (ur : Option Bytes) (comps : List Bytes) (n
           · unfold Safe; decide
           · exact d2 e he)
       (by intro e he; simp at he; subst he; exact d3)
-      (Or.inl (hnr (by simp [hk]))) (by simp) rest
+      (Or.inl (hnr (by simp [hk]))) (by simp) rfl rest
     simp only [spTail, List.append_nil, addDevice, d4, d5, addGeneric, makedev_major_minor n.devno hdev] at this
     simp only [List.append_assoc, List.cons_append, List.nil_append, List.singleton_append] at this ⊢
     rw [this]; simp [ifmtOf]
@@ -178,7 +178,7 @@ theorem handle_print_roundtrip_proof (ur : Option Bytes) (comps : List Bytes) (n
     simp only [specEntry, hk, Option.some.injEq] at he
     subst he
     refine ⟨_, by simp only [describeNode, hsane, hk, hpath]; rfl, fun rest => ?_⟩
-    have hh : findHook KW_NOD hooks = some ⟨KW_NOD, 0, true, false, .device⟩ := by decide
+    have hh : findHook KW_NOD hooks = some ⟨KW_NOD, 0, 0, true, false, .device⟩ := by decide
     obtain ⟨d1, d2, d3, d4, d5⟩ := dev_fields n.devno hdev
     have d1' := (d1 98).resolve_right (by decide)
     have := describe_line KW_NOD word_nod _ hh comps hc n hwf _ _ d1'
@@ -187,7 +187,7 @@ theorem handle_print_roundtrip_proof (ur : Option Bytes) (comps : List Bytes) (n
           · unfold Safe; decide
           · exact d2 e he)
       (by intro e he; simp at he; subst he; exact d3)
-      (Or.inl (hnr (by simp [hk]))) (by simp) rest
+      (Or.inl (hnr (by simp [hk]))) (by simp) rfl rest
     simp only [spTail, List.append_nil, addDevice, d4, d5, addGeneric, makedev_major_minor n.devno hdev] at this
     simp only [List.append_assoc, List.cons_append, List.nil_append, List.singleton_append] at this ⊢
     rw [this]; simp [ifmtOf]
